@@ -145,6 +145,21 @@ CLAIMS = {
         "the combinator reads, constant inlining, settling for every input.",
    technique="grammar-model ladder check + table agreement + def-use operand-order trace + extracted-term evaluation in a small algebra",
    ref="DESIGN.md §2 C01"),
+ "C02": dict(
+   text="Static analysis: the wildcard each bundle constructor uses is compared with the Factorio meaning of the operation (each for member-wise map/filter, everything for gating and all(), "
+        "anything for any(), identical in the lowerer and in the inlined entity condition); the separation flag is set wherever a signal-valued scalar/condition meets a bundle, forwarded by "
+        "the placer for both node kinds, consumed by the planner which locks one input to the non-default colour, and the wire selection stored for an operand with a resolved source is a "
+        "single looked-up colour; a constant literal member is recorded once (CFG); duplicate detection treats nested-bundle members like direct members (sibling-branch check). NOT decided: "
+        "that no foreign signal is present on the bundle's wire for a given program/layout, merge colouring outcomes, filter values at run time.",
+   technique="table check of wildcard roles + flag-chain def-use + CFG exclusivity + sibling-branch comparison",
+   ref="DESIGN.md §2 C02"),
+ "C20": dict(
+   text="Static analysis (thin): names are marked referenced only on the identifier read path; every anchor placement is followed on all paths by the wiring call (CFG), anchor ids are a "
+        "function of (signal, alias), constants are skipped only under their own name; debug_info keys written by the placers are read by the description formatter (bag agreement), declared "
+        "names override node ids, inputs and anchors are labelled; the is_output formula; every reason to materialise a constant is still a disjunct. NOT decided: that the anchor's network "
+        "carries exactly the result's value.",
+   technique="CFG must-pass-through + bag-key agreement + formula/guard-chain checks",
+   ref="DESIGN.md §2 C20"),
 }
 NA_DEFAULT = "check not built yet (build phase in progress); see DESIGN.md for the planned rules"
 NA = {}
